@@ -1,6 +1,7 @@
 SPECIFICATION Spec
 CONSTANT KS = {0}
 CONSTANT NES = {1, 2, 3}
+CONSTANT MaxCells = 99
 INVARIANT BeforeConsistent
 INVARIANT ImplSatisfiesD
 INVARIANT ResultConsistent
